@@ -1337,6 +1337,9 @@ class Analyzer:
             st.vals[sub] = V(sym=(fsid, 0))
         for (ka, kb, d) in (self.entry.get("field_diffs") or []):
             st.diffs[("f:%s" % ka, "f:%s" % kb)] = d
+        for (ka, kb, lo, hi) in (self.entry.get("field_sums") or []):
+            if "f:%s" % ka in st.syms and "f:%s" % kb in st.syms:
+                st.refine_sum("f:%s" % ka, "f:%s" % kb, (lo, hi))
         return st
 
     def run(self, max_iter=60):
